@@ -138,6 +138,18 @@ def gen_foreign(w, k):
                 tracks[tr].append({"tick": off, "type": "note_on", "channel": ch, "note": pitch, "velocity": 0})
             else:
                 tracks[tr].append({"tick": off, "type": "note_off", "channel": ch, "note": pitch, "velocity": w.choice((0, 64))})
+        if w.random() < 0.2:
+            # a key doubled on two channels: same onset, pitch and offset; the higher channel comes first in the file
+            on = w.randrange(0, 4000)
+            off = on + w.randrange(50, 600)
+            pitch = w.randrange(30, 100)
+            if not any(p == pitch and c in (2, 5) and a <= off + 1 and on <= b + 1 for a, b, p, c in used):
+                used.append((on, off, pitch, 5))
+                used.append((on, off, pitch, 2))
+                for ch in (5, 2):
+                    tracks[tr].append({"tick": on, "type": "note_on", "channel": ch, "note": pitch, "velocity": 40 + ch})
+                for ch in (5, 2):
+                    tracks[tr].append({"tick": off, "type": "note_off", "channel": ch, "note": pitch, "velocity": 0})
         if w.random() < 0.15 and not any(p in (0, 127) for a, b, p, c in used):
             c0 = w.choice((0, 2, 14))
             on = w.randrange(0, 4000)
